@@ -26,8 +26,9 @@ META = {
 def run(ctx):
     import wrapper_corr
 
-    runner_corr.run_cluster(ctx, "C07")
+    # the wrapper level first (seconds): once the trace conformance is broken, the runner cluster spends the remaining budget on its searches
     wrapper_corr.run_wrapper_level(ctx, "C07")
+    runner_corr.run_cluster(ctx, "C07")
     import solver_wrappers_corr
 
     solver_wrappers_corr.run_solver_level(ctx, "C07")
